@@ -377,6 +377,103 @@ fn run_tamper_continue(cfg: &HsCfg, k_alt: usize, field: usize, sc: &mut Sc, r: 
     sc.count(if any_err { "tamper_continue.detected" } else { "tamper_continue.undetected" });
 }
 
+/// Sessions built through `Builder::new` (snow's own default resolver): honest runs with fixed ephemerals, so every
+/// byte is determined and compared with the model; sids >= 100 (no events on either side).
+fn gen_builder_new(run: &mut Run, seed: u64, thorough: bool) {
+    let pats = pattern_names();
+    let mut r = Rng64(seed ^ 0x6e65_7762);
+    for (pi, p) in pats.iter().enumerate() {
+        for rep in 0..(if thorough { 4 } else { 1 }) {
+            let i = pi + rep * 11 + (seed as usize % 5);
+            let mut cfg = base_cfg(p, i, r.next(), true);
+            cfg.res_i = "default".into();
+            cfg.res_r = "default".into();
+            let name = cfg.name();
+            let Some(inst) = inst_of(&cfg.pattern, &cfg.psks) else { continue };
+            let mut kr = Rng64(cfg.seed);
+            let (s_i, s_r, e_i, e_r) = (kr.bytes(32), kr.bytes(32), kr.bytes(32), kr.bytes(32));
+            let (Some(pub_i), Some(pub_r)) = (pub_of("default", &cfg.dh, &s_i), pub_of("default", &cfg.dh, &s_r)) else { continue };
+            let psk: Vec<(u8, Vec<u8>)> = cfg.psks.iter().map(|n| (*n, kr.bytes(32))).collect();
+            let mut sc = Sc::new();
+            sc.ex.comment(&format!("Builder::new {name}"));
+            let mk = |initiator: bool| BuildSpec {
+                name: name.clone(),
+                initiator,
+                resolver: "new".into(),
+                s: if role_uses_s(&inst, initiator) { Some(if initiator { s_i.clone() } else { s_r.clone() }) } else { None },
+                e: Some(if initiator { e_i.clone() } else { e_r.clone() }),
+                rs: if role_preknows_rs(&inst, initiator) { Some(if initiator { pub_r.clone() } else { pub_i.clone() }) } else { None },
+                psks: psk.clone(),
+                prologue: cfg.prologue.clone(),
+                rng: vec![],
+            };
+            let (bi, br) = (sc.ex.build(101, &mk(true)), sc.ex.build(102, &mk(false)));
+            sc.check_panic(&bi, "Builder::new build_initiator");
+            sc.check_panic(&br, "Builder::new build_responder");
+            if !bi.is_ok() || !br.is_ok() {
+                sc.viol("C12", format!("{name}: Builder::new rejects a consistent configuration: {bi:?} {br:?}"));
+                run.add("hs", format!("Builder::new {name}"), sc);
+                continue;
+            }
+            sc.count("hs.builder_new");
+            let mut ok = true;
+            for k in 0..inst.msgs.len() {
+                let (w, rd) = if k % 2 == 0 { (101, 102) } else { (102, 101) };
+                let pl = [0usize, 1, 16, 40][r.below(4)];
+                let p = r.bytes(pl);
+                let o = sc.ex.hs_write(w, &p, 600);
+                sc.check_panic(&o, "hs_write");
+                let Some(m) = o.bytes().map(<[u8]>::to_vec) else {
+                    sc.viol("C02", format!("{name}: Builder::new session: write of message {k} failed: {o:?}"));
+                    ok = false;
+                    break;
+                };
+                let o = sc.ex.hs_read(rd, &m, p.len() + 16);
+                sc.check_panic(&o, "hs_read");
+                if o.bytes() != Some(p.as_slice()) {
+                    sc.viol("C02", format!("{name}: Builder::new session: message {k} not delivered: {o:?}"));
+                    ok = false;
+                    break;
+                }
+            }
+            if ok {
+                let (qi, qr) = (sc.ex.query(101), sc.ex.query(102));
+                if qi.as_ref().and_then(|q| q.hh.clone()) != qr.as_ref().and_then(|q| q.hh.clone()) {
+                    sc.viol("C02", format!("{name}: Builder::new session: handshake hashes differ"));
+                }
+                let stateless = rep % 2 == 1;
+                let (ci, cr) = (sc.ex.convert(101, stateless), sc.ex.convert(102, stateless));
+                if !ci.is_ok() || !cr.is_ok() {
+                    sc.viol("C02", format!("{name}: Builder::new session: conversion failed"));
+                } else {
+                    let oneway = inst.msgs.len() == 1;
+                    for j in 0..3u64 {
+                        for (w, rd) in [(101u32, 102u32), (102, 101)] {
+                            if oneway && w == 102 {
+                                continue;
+                            }
+                            let pl = 1 + r.below(60);
+                            let p = r.bytes(pl);
+                            let o = if stateless { sc.ex.st_write(w, j, &p, p.len() + 16) } else { sc.ex.t_write(w, &p, p.len() + 16) };
+                            sc.check_panic(&o, "transport write");
+                            let Some(m) = o.bytes().map(<[u8]>::to_vec) else {
+                                sc.viol("C02", format!("{name}: Builder::new session: transport write failed: {o:?}"));
+                                break;
+                            };
+                            let o = if stateless { sc.ex.st_read(rd, j, &m, p.len()) } else { sc.ex.t_read(rd, &m, p.len()) };
+                            sc.check_panic(&o, "transport read");
+                            if o.bytes() != Some(p.as_slice()) {
+                                sc.viol("C02", format!("{name}: Builder::new session: transport message not delivered: {o:?}"));
+                            }
+                        }
+                    }
+                }
+            }
+            run.add("hs", format!("Builder::new {name}"), sc);
+        }
+    }
+}
+
 /// C08: mismatched configuration never yields a channel.
 fn gen_mismatch(run: &mut Run, seed: u64, thorough: bool) {
     let pats = pattern_names();
@@ -813,12 +910,14 @@ fn run_prop(prop: &str, thorough: bool, seed: u64) -> Run {
         "C01" => {
             gen_tokens(&mut run, seed, thorough);
             gen_hs(&mut run, prop, seed, thorough);
+            gen_builder_new(&mut run, seed, thorough);
             gen_hs_retry_light(&mut run, prop, seed, thorough);
             gen_transport(&mut run, prop, seed, false);
             prim::gen_prim(&mut run, seed, thorough, true);
         },
         "C02" => {
             gen_hs(&mut run, prop, seed, thorough);
+            gen_builder_new(&mut run, seed, thorough);
             gen_hs_retry_light(&mut run, prop, seed, thorough);
             gen_transport(&mut run, prop, seed, false);
         },
@@ -852,6 +951,7 @@ fn run_prop(prop: &str, thorough: bool, seed: u64) -> Run {
             gen_api(&mut run, seed, thorough);
             gen_tokens(&mut run, seed, thorough);
             gen_hs(&mut run, prop, seed, thorough);
+            gen_builder_new(&mut run, seed, false);
         },
         "C13" => gen_parse(&mut run, seed, thorough),
         "C14" => {
@@ -876,6 +976,7 @@ fn run_prop(prop: &str, thorough: bool, seed: u64) -> Run {
             gen_resolve(&mut run);
             gen_build(&mut run, seed, false);
             gen_hs(&mut run, prop, seed, thorough);
+            gen_builder_new(&mut run, seed, false);
             gen_transport(&mut run, prop, seed, thorough);
             prim::gen_prim(&mut run, seed, thorough, true);
         },
